@@ -36,6 +36,20 @@ def check_population(ctx, fns, pop, label, need_q=True, detail=None):
         ctx.prove(z3.And(*g), label, detail={"row": i, **(detail or {})})
 
 
+def check_precision(ctx, pop, want, label, detail):
+    """C15: the population object and every array it holds have the requested width."""
+    got = {"dtype": repr(getattr(pop, "dtype", None))}
+    ok = getattr(pop, "dtype", None) == want
+    for f in ("x", "log_likelihood", "log_prior", "log_q", "log_w", "weights"):
+        a = getattr(pop, f, None)
+        if a is None:
+            continue
+        dt = getattr(a, "dtype", None)
+        got[f] = repr(dt)
+        ok = ok and dt == want
+    ctx.prove(bool(ok), label, detail={"requested": repr(want), "found": got, **detail})
+
+
 def check_run(ctx, env, props, label_suffix=""):
     smp = env.sampler
     fns = env.fns
@@ -157,6 +171,15 @@ def check_run(ctx, env, props, label_suffix=""):
         ctx.prove(len(pops[0].x) == N, "c10/initial_size" + sfx)
         for ck in env.checkpoints:
             pass
+
+    # ---- C15 (precision clause) -----------------------------------------------
+    if "C15" in props:
+        want = sx.float32 if cfg.get("dtype") in ("float32", "obj32") else sx.float64
+        for t, p in enumerate(pops):
+            check_precision(ctx, p, want, "c15/history" + sfx, {"population": t})
+        check_precision(ctx, final, want, "c15/final" + sfx, {})
+        for j, ck in enumerate(env.checkpoints):
+            check_precision(ctx, ck["live_state"]["samples"], want, "c15/checkpoint" + sfx, {"checkpoint": j})
 
     # ---- C17 ------------------------------------------------------------------
     if "C17" in props:
